@@ -148,6 +148,14 @@ def env_atoms(desc, host_atoms):
                              "res_seq": 51 + i, "target": False})
         elif kind == "omit":
             pass  # handled in host()
+        elif kind == "extra":
+            # an atom the topology does not know, 1.5 A from CA of residue X
+            ca = _find(host_atoms, ti, "CA")
+            e = build.BAtom(ca)
+            e["name"] = dev[1]
+            e["xyz"] = ca["xyz"] + np.array([0.9, 0.9, 0.8])
+            e["_after"] = ti
+            extra.append(e)
         else:
             raise ValueError(kind)
     return extra, info
@@ -180,6 +188,12 @@ def build_case(desc):
     if env is None:
         return None
     extra, einfo = env
+    inside = [e for e in extra if "_after" in e]
+    extra = [e for e in extra if "_after" not in e]
+    for e in inside:  # keep the records of a residue contiguous
+        idx = max(i for i, a in enumerate(atoms)
+                  if a["res_idx"] == e["_after"] and a["chain"] == e["chain"])
+        atoms.insert(idx + 1, e)
     atoms = atoms + extra
     return build.pdb_text(atoms), info + einfo, atoms
 
@@ -328,4 +342,14 @@ def water_omit_cases(ff):
                     out.append({"x": x, "pos": pos, "ff": ff, "opt": "default",
                                 "env": [["omit", [last]],
                                         ["water", t, di, 2.8]]})
+    return out
+
+
+def extra_cases(ff, names=None):
+    out = []
+    for x in (names or T.AMINO):
+        for pos in corpus.POSITIONS:
+            for nm in ("CX9", "OX9"):
+                out.append({"x": x, "pos": pos, "ff": ff, "opt": "default",
+                            "env": [["extra", nm]]})
     return out
